@@ -751,15 +751,22 @@ func (f *fnState) specCall(x *spec.Call, c *specCtx) SV {
 		if len(sf.Params) != len(x.Args) {
 			f.fail("%s: %s expects %d arguments", f.fn, sf.Name, len(sf.Params))
 		}
+		mc := *c
+		if mp := f.e.typesPkg(sf.PkgPath); mp != nil {
+			mc.pkg = mp // parameter sorts of a macro are written in its own package
+		}
 		for i, p := range sf.Params {
 			v := arg(i)
-			if _, t := c.specSort(p.Sort); t != nil && v.Typ == nil {
+			if _, t := mc.specSort(p.Sort); t != nil && v.Typ == nil {
 				v.Typ = t
 			}
 			if v.Sort == sLoc && v.LV == nil && v.Typ != nil {
 				v = f.mk(v.Typ, v.T)
 			}
 			n.bound[p.Name] = v
+		}
+		if mp := f.e.typesPkg(sf.PkgPath); mp != nil {
+			n.pkg = mp
 		}
 		return f.specVal(sf.Body, &n)
 	}
